@@ -150,6 +150,9 @@ func (c *FrameChecker) Check(proto uint16, b []byte) (Info, error) {
 			if err != nil && !(c.Offload && len(ip.Payload) >= 8 && int(be16(ip.Payload[4:])) == len(ip.Payload)) {
 				return in, err
 			}
+			if err == nil && u.Csum == 0 && !c.Offload {
+				return in, fmt.Errorf("udp: checksum field 0 over IPv4 on a link without checksum offload (not computed, or a computed 0x0000 not sent as 0xffff)")
+			}
 			return in, nil
 		case ProtoICMP:
 			in.Kind = "icmp4"
